@@ -94,6 +94,13 @@ def present(vals, fmt, scale=None):
         return items, None, None     # ids resolved by value matching
     if fmt in ("int32array", "int64array", "uint32array"):   # a numpy array of a FIXED integer dtype that holds every value; sums of two values may not fit (int32)
         return np.array(vv, dtype={"int32array": np.int32, "int64array": np.int64, "uint32array": np.uint32}[fmt]), None, None
+    if fmt in ("npscalars", "npscalardict"):   # a plain LIST (resp. a dict) whose numbers are numpy SCALARS of the narrowest unsigned dtype holding every value:
+        m = max(vv) if len(vv) else 0           # python-level sums of such scalars wrap around where python ints do not
+        dt = np.uint8 if m < 2 ** 8 else (np.uint16 if m < 2 ** 16 else np.uint32)
+        if fmt == "npscalars":
+            return [dt(v) for v in vv], None, None
+        names = [name_of(i + 1) for i in range(n)]
+        return {names[i]: dt(vv[i]) for i in range(n)}, None, {names[i]: i + 1 for i in range(n)}
     if fmt == "narrowarray":         # a numpy array of the narrowest unsigned integer dtype that holds every VALUE (sums may exceed it)
         m = max(vv) if len(vv) else 0
         dt = np.uint8 if m < 2 ** 8 else (np.uint16 if m < 2 ** 16 else np.uint32)
@@ -546,6 +553,23 @@ def run_refuse(st):
     return {"vals": st["vals"], "res": res}
 
 
+def run_scan(st):
+    """st: {vals, Cs, alg, fmt, ot} -> a REQUEST HISTORY: the same items packed with a sequence of bin sizes, one call after the other in this process
+    (a caller scanning capacities).  Events [C, out]; judged stepwise by JScan.tla."""
+    evs = []
+    for C in st["Cs"]:
+        items, valueof, back = present(st["vals"], st["fmt"])
+        try:
+            _pack_call(st["alg"], C, 1, items, valueof, OUTTYPES[st["ot"]], 20)
+            o = "ret"
+        except Watchdog:
+            o = "timeout"
+        except Exception as e:
+            o = outcome_of_exception(e)
+        evs.append({"C": C, "out": o})
+    return {"vals": st["vals"], "alg": st["alg"], "fmt": st["fmt"], "ot": st["ot"], "events": evs}
+
+
 # ------------------------------------------------------------------ C20: objectives
 def _rat(f, maxden):
     """exact rational num/den (den <= maxden) whose float is f, else (0, 0)"""
@@ -947,6 +971,7 @@ def run_ilp(st):
                 row.append(int(round(v)) if v is not None and abs(v - round(v)) < 1e-6 else -1)
             rows.append(row)
         t["x"] = rows
+    t["cps"] = 1 if st.get("copies_scalar") else 0     # how `copies` was GIVEN (one number / a list) is part of the stimulus: a re-solve must present it the same way
     for kdel in ("copies_scalar", "nopre"):
         t.pop(kdel, None)
     return t
